@@ -223,9 +223,12 @@ def print_assumptions(prop):
 REPORT_RE = re.compile(r"report\s*=\s*(.*?)\s*:\s*list", re.S)
 
 
-def eval_shard(path):
+def eval_shard(path, limit=1500):
     d = os.path.dirname(path)
-    rc, out = sh(["timeout", "1500", "coqc", "-Q", COQ, "NGF", os.path.basename(path)], cwd=d, timeout=1600)
+    try:
+        rc, out = sh(["timeout", str(limit), "coqc", "-Q", COQ, "NGF", os.path.basename(path)], cwd=d, timeout=limit + 100)
+    except subprocess.TimeoutExpired:
+        rc, out = 124, "timed out"
     if rc != 0:
         return None, out
     m = REPORT_RE.search(out)
@@ -249,6 +252,15 @@ def eval_cases(outdir):
                 errors.append((path, out[-3000:]))
             else:
                 failing.extend(res)
+    # a shard that did not come back (on a loaded machine the time limit of a large shard can run out while fourteen are evaluated
+    # at once) is evaluated once more, alone and with a longer limit, before it counts as an error
+    retry, errors = errors, []
+    for path, out in retry:
+        res, out2 = eval_shard(path, limit=5400)
+        if res is None:
+            errors.append((path, (out + "\n--- second attempt ---\n" + out2)[-3000:]))
+        else:
+            failing.extend(res)
     return sorted(failing), errors, len(shards)
 
 
